@@ -33,6 +33,8 @@ class Profile:
 
     def __init__(self, rng, base=None):
         b = base or {}
+        self.const_pool = b.get("const_pool", CONST_POOL)
+        self.grid = b.get("grid", GRID)
         self.n_ord = rng.randint(*b.get("n_ord", (1, 4)))
         self.n_trip = rng.choice(b.get("n_trip", [0, 1, 1, 2, 2, 3]))
         self.n_miss = rng.choice(b.get("n_miss", [0, 0, 1, 1, 2]))
@@ -41,6 +43,7 @@ class Profile:
         self.max_size = b.get("max_size", 250)
         self.share = rng.choice(b.get("share", [0.05, 0.15, 0.3, 0.3, 0.5, 0.7]))
         self.trip_prob = rng.choice(b.get("trip_prob", [0.0, 0.1, 0.2, 0.35]))
+        self.group_prob = rng.choice(b.get("group_prob", [0.0, 0.0, 0.1, 0.25]))
         self.arm_prob = rng.choice(b.get("arm_prob", [0.1, 0.25, 0.25, 0.5]))
         self.miss_prob = rng.choice(b.get("miss_prob", [0.2, 0.4, 0.6]))
         self.n_points = rng.randint(*b.get("n_points", (2, 5)))
@@ -64,8 +67,8 @@ class Profile:
         self.foreign_prob = rng.choice(b.get("foreign_prob", [0.2, 0.4, 0.7]))
 
 
-def _const(rng):
-    return rng.choice(CONST_POOL)
+def _const(rng, pr):
+    return rng.choice(pr.const_pool)
 
 
 def gen_world(rng, pr):
@@ -97,7 +100,7 @@ def gen_world(rng, pr):
     for v in ord_vars + trip_vars + miss_vars:
         var_ids[v] = add({"op": "Variable", "name": v})
     for _ in range(rng.randint(1, 3)):
-        add({"op": "Constant", "value": _const(rng)})
+        add({"op": "Constant", "value": _const(rng, pr)})
 
     def pick_kid():
         r = rng.random()
@@ -107,7 +110,7 @@ def gen_world(rng, pr):
         if r < pr.share + 0.25:
             return rng.randrange(max(0, n - 4), n)        # recent: grows depth
         if r < pr.share + 0.45:
-            return add({"op": "Constant", "value": _const(rng)})
+            return add({"op": "Constant", "value": _const(rng, pr)})
         if r < pr.share + 0.55 and ord_vars:
             return add({"op": "Variable", "name": rng.choice(ord_vars)})   # equal-but-distinct leaf
         return rng.randrange(n)
@@ -128,6 +131,29 @@ def gen_world(rng, pr):
                 cand = ({"op": "Divide"}, [pick_kid(), t])
             else:
                 cand = ({"op": "Power"}, [t, pick_kid()])
+        elif rng.random() < pr.group_prob:
+            # an n-ary node over several parameterised nodes of one class with few distinct
+            # parameters: exercises the group-by-key consolidation rules (order-sensitive code)
+            form = rng.choice(["Logarithm", "NthPower", "NthRoot", "Exponential", "Negation", "Reciprocal"])
+            outer = "Add" if form in ("Logarithm", "Negation") else "Multiply"
+            if rng.random() < 0.2:
+                outer = "Multiply" if outer == "Add" else "Add"
+            params = rng.sample([2, 3, 10, 0.5], 2) if form in ("Logarithm", "Exponential") else rng.sample([2, 3, 4, 5], 2)
+            members = []
+            for _ in range(rng.randint(2, 4)):
+                kid = pick_kid()
+                if info[kid][0] + 2 > pr.max_depth:
+                    kid = rng.randrange(len(var_ids) + 1)
+                if form in ("Logarithm", "Exponential"):
+                    members.append(add({"op": form, "base": rng.choice(params)}, [kid]))
+                elif form in ("NthPower", "NthRoot"):
+                    members.append(add({"op": form, "n": rng.choice(params)}, [kid]))
+                else:
+                    members.append(add({"op": form}, [kid]))
+            if rng.random() < 0.5:
+                members.append(pick_kid())
+            rng.shuffle(members)
+            cand = ({"op": outer}, members)
         else:
             op = rng.choice(pr.ops)
             if op in lib.NARY:
@@ -157,7 +183,7 @@ def gen_points(rng, pr, ord_vars, trip_vars, miss_vars):
     for _ in range(pr.n_points):
         coords = []
         for v in ord_vars:
-            val = rng.choice(GRID)
+            val = rng.choice(pr.grid)
             if rng.random() < pr.positive_bias:
                 val = abs(val) if val != 0 else 1
             coords.append([v, val])
@@ -273,7 +299,7 @@ def gen_steps(rng, pr, nodes, info, all_vars, n_points):
                 singles = [x for x in pool.of_type("E") if len(x["vars"]) <= 1 and x["depth"] >= 2]
                 if singles:
                     e = rng.choice(singles)
-            st.update(k="at", o=e["name"], num=rng.choice(GRID))
+            st.update(k="at", o=e["name"], num=rng.choice(pr.grid))
         elif kind == "mk_partial":
             early = rng.random() < pr.early_prob
             e = pick_expr(c, pr.heavy_size if early else None)
@@ -310,7 +336,7 @@ def gen_steps(rng, pr, nodes, info, all_vars, n_points):
             if o is None:
                 continue
             if o["type"] == "D" and rng.random() < 0.4:
-                st.update(k="at", o=o["name"], num=rng.choice(GRID))
+                st.update(k="at", o=o["name"], num=rng.choice(pr.grid))
             else:
                 st.update(k="at", o=o["name"], p=p)
         elif kind == "dat":
@@ -417,3 +443,209 @@ def gen_scenario(rng, base=None):
     all_vars = ord_vars + trip_vars + miss_vars
     steps = gen_steps(rng, pr, nodes, info, all_vars, len(points))
     return {"nodes": nodes, "points": points, "steps": steps, "vars": all_vars + ["absent_v"]}
+
+
+# ---------------------------------------------------------------------------- C06 workload
+
+C06_CONST = [0, 1, -1, 2, 3, 0.5, -0.5, -2, 1.5, 0.25, 2.5, -3, 1.0, 2.0, 0.75]
+C06_GRID = [-2, -1, -0.5, 0, 0.5, 1, 2, 3, 0.75, 1.5, 0.3, -1.25, 1.0, 2.0, 0.0, -1.0, 0.125, 0.7]
+
+C06_BASE = {
+    "n_ord": (1, 3), "n_trip": [0, 1, 1, 2], "n_miss": [0], "n_nodes": (4, 20), "max_depth": (2, 5),
+    "max_size": 60, "n_points": (2, 4), "n_steps": (10, 36), "heavy_size": 40,
+    "positive_bias": [0.0, 0.3, 0.6], "group_prob": [0.0, 0.1, 0.2],
+    "const_pool": C06_CONST, "grid": C06_GRID,
+}
+
+
+def gen_c06(rng, base=None):
+    """Route-replica workload: long-lived derivative objects of every kind for 1-3 target
+    expressions (sharing nodes), queried in a seeded interleaving with as_expression() switches,
+    failed queries and neighbour evaluations in between."""
+    b = dict(C06_BASE)
+    if base:
+        b.update(base)
+    pr = Profile(rng, b)
+    nodes, info, ord_vars, trip_vars, miss_vars = gen_world(rng, pr)
+    points = gen_points(rng, pr, ord_vars, trip_vars, miss_vars)
+    all_vars = ord_vars + trip_vars
+    cands = [i for i, (d, s, vs) in enumerate(info) if d >= 2 and s <= pr.heavy_size]
+    if not cands:
+        cands = [len(nodes) - 1]
+    ws = [info[i][0] ** 2 for i in cands]
+    targets = []
+    for _ in range(rng.randint(1, 3)):
+        t = _wchoice(rng, cands, ws)
+        if t not in targets:
+            targets.append(t)
+    steps = []
+    objs = {"P": [], "D": [], "F": [], "L": []}    # entries: dict(name, e, v, early, p)
+    sid = 0
+    n_steps = pr.n_steps
+    guard = 0
+
+    def var_for(t):
+        vs = info[t][2]
+        r = rng.random()
+        if vs and r < 0.85:
+            return rng.choice(vs)
+        return rng.choice(all_vars + ["absent_v"])
+
+    kinds = ["mkP", "mkD", "mkF", "mkL", "comp", "dat", "patP", "patD", "compat", "lcomp", "asx", "eqP", "eqL",
+             "noise", "noise_num"]
+    weights = [5, 2, 4, 3, 4, 4, 9, 4, 5, 5, 4, 2, 2, 5, 1]
+    for i in range(len(kinds)):
+        if kinds[i] not in ("mkP", "patP") and rng.random() < 0.15:
+            weights[i] = 0
+    while len(steps) < n_steps and guard < n_steps * 10:
+        guard += 1
+        kind = _wchoice(rng, kinds, weights)
+        c = rng.randrange(pr.n_clients)
+        st = {"id": sid, "c": c}
+        p = rng.randrange(len(points))
+        vobj = rng.random() < pr.vobj_prob
+        early = rng.random() < pr.early_prob
+        if kind == "mkP":
+            t = rng.choice(targets)
+            v = var_for(t)
+            st.update(k="mk", cls="Partial", e=f"n{t}", v=v, vobj=vobj, early=early)
+            objs["P"].append({"name": f"s{sid}", "t": t, "v": v})
+        elif kind == "mkD":
+            single = [t for t in targets if len(info[t][2]) <= 1]
+            if not single:
+                if rng.random() < 0.9:
+                    continue
+                single = targets
+            t = rng.choice(single)
+            st.update(k="mk", cls="Derivative", e=f"n{t}", early=early)
+            objs["D"].append({"name": f"s{sid}", "t": t})
+        elif kind == "mkF":
+            t = rng.choice(targets)
+            st.update(k="mk", cls="Differential", e=f"n{t}", early=early)
+            objs["F"].append({"name": f"s{sid}", "t": t})
+        elif kind == "mkL":
+            t = rng.choice(targets)
+            st.update(k="mk", cls="LocatedDifferential", e=f"n{t}", p=p)
+            objs["L"].append({"name": f"s{sid}", "t": t, "p": p})
+        elif kind == "comp":
+            if not objs["F"]:
+                continue
+            o = rng.choice(objs["F"])
+            v = var_for(o["t"])
+            st.update(k="comp", o=o["name"], v=v, vobj=vobj)
+            objs["P"].append({"name": f"s{sid}", "t": o["t"], "v": v})
+        elif kind == "dat":
+            if not objs["F"]:
+                continue
+            o = rng.choice(objs["F"])
+            st.update(k="dat", o=o["name"], p=p)
+            objs["L"].append({"name": f"s{sid}", "t": o["t"], "p": p})
+        elif kind == "patP":
+            if not objs["P"]:
+                continue
+            st.update(k="at", o=rng.choice(objs["P"])["name"], p=p)
+        elif kind == "patD":
+            if not objs["D"]:
+                continue
+            o = rng.choice(objs["D"])
+            vs = info[o["t"]][2]
+            if len(vs) == 1 and rng.random() < 0.5:
+                val = dict((n, x) for n, x in points[p]).get(vs[0])
+                if val is None:
+                    continue
+                st.update(k="at", o=o["name"], num=val, as_p=p)
+            else:
+                st.update(k="at", o=o["name"], p=p)
+        elif kind == "compat":
+            if not objs["F"]:
+                continue
+            o = rng.choice(objs["F"])
+            st.update(k="compat", o=o["name"], v=var_for(o["t"]), vobj=vobj, p=p)
+        elif kind == "lcomp":
+            if not objs["L"]:
+                continue
+            o = rng.choice(objs["L"])
+            st.update(k="lcomp", o=o["name"], v=var_for(o["t"]), vobj=vobj)
+        elif kind == "asx":
+            pool = objs["P"] + objs["D"]
+            if not pool:
+                continue
+            st.update(k="asx", o=rng.choice(pool)["name"])
+        elif kind == "eqP":
+            if len(objs["P"]) < 2:
+                continue
+            a = rng.choice(objs["P"])
+            same = [x for x in objs["P"] if x["t"] == a["t"] and x["v"] == a["v"] and x is not a]
+            bb = rng.choice(same) if same and rng.random() < 0.85 else rng.choice(objs["P"])
+            st.update(k="eq", a=a["name"], b=bb["name"])
+        elif kind == "eqL":
+            if len(objs["L"]) < 2:
+                continue
+            a = rng.choice(objs["L"])
+            same = [x for x in objs["L"] if x["t"] == a["t"] and x["p"] == a["p"] and x is not a]
+            bb = rng.choice(same) if same and rng.random() < 0.85 else rng.choice(objs["L"])
+            st.update(k="eq", a=a["name"], b=bb["name"])
+        elif kind == "noise":
+            st.update(k="at", o=f"n{rng.randrange(len(nodes))}", p=p)
+        elif kind == "noise_num":
+            st.update(k="at", o=f"n{rng.randrange(len(nodes))}", num=rng.choice(C06_GRID))
+        steps.append(st)
+        sid += 1
+    return {"nodes": nodes, "points": points, "steps": steps, "vars": all_vars + ["absent_v"],
+            "targets": [f"n{t}" for t in targets]}
+
+
+# ---------------------------------------------------------------------------- rewrite-budget exhaustion
+
+def gen_giveup(rng):
+    """Natural GIVEUP fault: the derivative of a Horner polynomial of degree ~40 needs more than the
+    rewriter's 1000-step budget, so as_expression() / early construction give up part-way; the
+    scenario then keeps using the returned expression, the original and second derivative objects."""
+    degree = rng.randint(38, 46)
+    var = rng.choice(["x", "y", "alpha"])
+    nodes = [{"op": "Variable", "name": var}]
+    acc = None
+    for d in range(degree + 1):
+        nodes.append({"op": "Constant", "value": rng.choice([1, 2, -1, 0.5, 3, -2, 1.5])})
+        c = len(nodes) - 1
+        if acc is None:
+            acc = c
+        else:
+            nodes.append({"op": "Multiply", "kids": [0, acc]})
+            m = len(nodes) - 1
+            nodes.append({"op": "Add", "kids": [c, m]})
+            acc = len(nodes) - 1
+    root = f"n{acc}"
+    sub = f"n{acc - 8}"          # a shared sub-polynomial (an Add node)
+    points = [[[var, v]] for v in rng.sample([0.5, -0.5, 1, 0.25, -1, 0.75, 0, 1.0], 3)]
+    steps = []
+    sid = 0
+
+    def add(**kw):
+        nonlocal sid
+        kw["id"] = sid
+        kw["c"] = rng.randrange(3)
+        steps.append(kw)
+        sid += 1
+        return f"s{sid - 1}"
+    add(k="at", o=sub, p=0)
+    pl = add(k="mk", cls="Partial", e=root, v=var, early=False)
+    add(k="at", o=pl, p=1)
+    ex1 = add(k="asx", o=pl)                       # gives up
+    add(k="at", o=ex1, p=rng.randrange(3))
+    add(k="at", o=pl, p=rng.randrange(3))          # now on the symbolic path
+    add(k="at", o=root, p=2)
+    if rng.random() < 0.5:
+        pe = add(k="mk", cls="Derivative", e=root, early=True)     # gives up at construction
+        add(k="at", o=pe, p=rng.randrange(3))
+        ex2 = add(k="asx", o=pe)
+        add(k="eq", a=ex1, b=ex2)
+    else:
+        fe = add(k="mk", cls="Differential", e=root, early=True)
+        add(k="compat", o=fe, v=var, p=rng.randrange(3))
+        l = add(k="dat", o=fe, p=rng.randrange(3))
+        add(k="lcomp", o=l, v=var)
+    add(k="at", o=sub, num=rng.choice([0.5, 2, -1]))
+    add(k="at", o=ex1, p=rng.randrange(3))
+    return {"nodes": nodes, "points": points, "steps": steps, "vars": [var], "heavy_cap": 100000,
+            "size_cap": 100000, "giveup": True}
